@@ -59,7 +59,8 @@ Print Assumptions sanitize_names_terminates.
 
 (** Uniqueness of the FILE names of one directory after stereo merging is FALSE on the
     faithful model (known finding D6): a pair is named after its stem even when a sibling
-    already has that name.  Uniqueness before merging is the theorem above. *)
+    already has that name.  Uniqueness before merging is the theorem above.  Every such
+    collision involves a merged pair: C05, [output_name_collisions_involve_a_pair]. *)
 Theorem stereo_stem_collision_refuted :
   exists names, NoDup names /\ ~ NoDup (map fst (combine_stereo names)).
 Proof. exact stereo_stem_collision_refuted_lemma. Qed.
